@@ -904,6 +904,11 @@ example (env : Env) (hp : RulesProgress env.cfg = true) (hnf : env.faultAt = non
     (ms.map (fun m => m.toN (nameIs nm)) ++ [MemberN.ctor0 env hp hnf F D nm c0 op cp quals semi,
       MemberN.ctorP env hp hnf F D nm c0 op ps last cp quals semi, MemberN.dtor0 env hp hnf F D nm d0 op cp quals semi])
 
+/-- such classes nest: a class with constructors inside a class body is a `Member` of the outer body -/
+example (env : Env) (hp : RulesProgress env.cfg = true) (hnf : env.faultAt = none) (F D : Nat) (hskip : ∀ i h, env.skip i h = false)
+    (nm : String) (kw first : Tok) (pairs : List (Tok × Tok)) (ms : List (MemberN env F (core F (D + 1 + 1 + 1 + 1)) (nameIs nm))) :
+    Member env F (core F (D + 1 + 1 + 1 + 1)) := Member.clsN env hp hnf F D hskip nm kw first pairs ms
+
 /-- non-vacuity of the qualifier hypothesis: a constructor record accepts the empty qualifier list and stays a constructor
     without a return type -/
 example (n : String) (d : Option String) (ps : List Param) (acc : Option String) :
